@@ -2,11 +2,11 @@
 Model of lol-html's escaping and validation of inserted content (property C08).
 
 Transcribes, over byte strings (`Bytes = List UInt8`; Rust `&str` arguments are their UTF-8 bytes):
-  src/html/mod.rs:17                                escape_body_text            → `escapeBodyTextChunks`
-  src/html/mod.rs:48                                escape_double_quotes_only   → `escapeDoubleQuotesOnlyChunks`
-  src/base/bytes.rs:80                              owned_from_str_without_replacements → `ownedFromStrWithoutReplacements`
-  src/rewritable_units/tokens/comment.rs:54         contains_comment_closing_sequence   → `containsCommentClosingSequence`
-  src/rewritable_units/tokens/comment.rs:90         Comment::set_text           → `Comment.setText`
+  src/html/mod.rs:18                                escape_body_text            → `escapeBodyTextChunks`
+  src/html/mod.rs:49                                escape_double_quotes_only   → `escapeDoubleQuotesOnlyChunks`
+  src/base/bytes.rs:81                              owned_from_str_without_replacements → `ownedFromStrWithoutReplacements`
+  src/rewritable_units/tokens/comment.rs:50         contains_comment_closing_sequence   → `containsCommentClosingSequence`
+  src/rewritable_units/tokens/comment.rs:85         Comment::set_text           → `Comment.setText`
   src/rewritable_units/tokens/comment.rs:246        Comment::serialize_self     → `Comment.serialize`
   src/rewritable_units/tokens/attributes.rs:68      Attribute::name_from_string → `attrNameFromString`
   src/rewritable_units/tokens/attributes.rs:135     Attribute::set_value        → `Attribute.setValue`
@@ -60,8 +60,8 @@ inductive LoopErr
   | panic
   deriving Repr, DecidableEq
 
-/-- The loop of `escape_body_text` (html/mod.rs:18-45) and of `escape_double_quotes_only`
-(html/mod.rs:50-70): the list of chunks handed to `output_handler`, in order.
+/-- The loop of `escape_body_text` (html/mod.rs:18-46) and of `escape_double_quotes_only`
+(html/mod.rs:49-72): the list of chunks handed to `output_handler`, in order.
 `some pos` → split before/at the needle (a failing split is the `else { return }`), emit the
 non-empty chunk before it, emit the replacement; `none` → emit the non-empty tail and return. -/
 def escapeLoop (t : EscTable) : Nat → Bytes → List Bytes → Except LoopErr (List Bytes)
@@ -157,12 +157,12 @@ def Codec.xUserDefined : Codec :=
           else [38, 35] ++ decDigits c ++ [59]),
        cs.any (fun c => !(c < 0x80 || (0xF780 ≤ c && c ≤ 0xF7FF))))⟩
 
-/-- bytes.rs:80 `owned_from_str_without_replacements`. -/
+/-- bytes.rs:81 `owned_from_str_without_replacements`. -/
 def ownedFromStrWithoutReplacements (c : Codec) (s : Bytes) : Option Bytes :=
   let (bytes, hasReplacements) := c.encode s
   if !hasReplacements then some bytes else none
 
-/-- bytes.rs:72 `owned_from_str` (replacements kept: numeric character references). -/
+/-- bytes.rs:73 `owned_from_str` (replacements kept: numeric character references). -/
 def ownedFromStr (c : Codec) (s : Bytes) : Bytes := (c.encode s).1
 
 /-! ## Comment text (tokens/comment.rs) -/
@@ -172,7 +172,7 @@ def containsSeq (needle : Bytes) : Bytes → Bool
   | [] => needle.isEmpty
   | b :: t => needle.isPrefixOf (b :: t) || containsSeq needle t
 
-/-- comment.rs:54 with the literal lists as parameters. -/
+/-- comment.rs:50 with the literal lists as parameters. -/
 def containsClosingWith (cc cp : List Bytes) (text : Bytes) : Bool :=
   cc.any (fun x => containsSeq x text) || cp.any (fun x => x.isPrefixOf text)
 
@@ -190,7 +190,7 @@ structure Comment where
   raw : Option Bytes
   deriving Repr, DecidableEq
 
-/-- comment.rs:90 `set_text`: the token after the call, and the result. -/
+/-- comment.rs:85 `set_text`: the token after the call, and the result. -/
 def Comment.setTextWith (cc cp : List Bytes) (c : Codec) (self : Comment) (text : Bytes) :
     Comment × Except CommentTextError Unit :=
   if containsClosingWith cc cp text then (self, .error .commentClosingSequence)
